@@ -207,6 +207,7 @@ func c13(c *core.Ctx, r *core.Report) {
 			continue
 		}
 		for _, cl := range creates {
+			c05RefreshLazy(c, r, ref, cl, "C13.R3")
 			u := core.ClassifyErr(cl)
 			r.Check(u.Class == core.ErrTested || u.Class == core.ErrReturned, "C13.R3", cons, c.Pos(cl.Pos()),
 				"a creation error in Refresh becomes a non-nil return ("+string(u.Class)+" "+u.Detail+")")
@@ -214,6 +215,16 @@ func c13(c *core.Ctx, r *core.Report) {
 	}
 	r.Floor("C13.R3", "Factory implementations with a Refresh method", n, 1)
 
+	// R5: the ordering contract itself, for the runner instance of the sorter (C12.R1-R3)
+	if rl != nil {
+		if call, ok := core.Norm(rl.Slice).(*ssa.Call); ok && core.IsCallTo(call.Common(), ro.Sorter) {
+			n := sorterTableFor(c, r, call.Common().StaticCallee(), 2, func(row string) string { return "C13.R5" })
+			r.Count("sorter_abstract_runs", n)
+			if sf := c.Func("util/sort2", "Slice"); sf != nil {
+				c12R4On(c, r, sf, "C13.R5")
+			}
+		}
+	}
 	// R4
 	if ar := c.Named("definition", "ApplicationRunner"); ar != nil {
 		wireByTypeField(c, r, "C13.R4", ar)
